@@ -159,6 +159,10 @@ static bool gen_c20(uint64_t seed, const std::string &tier, uint64_t i, Plan &p)
       p.world = "L"; p.knobs.set("oracles", oracle_list({"none"}));
       Json home = Json::obj(); home.set("path", "/home/user1").set("mode", 0755); Json files = Json::arr(); int k = (int)r.below(5);
       std::string dq = k == 0 ? std::string(1000000, '#') : k == 1 ? rnd_bytes(r, 3000) : k == 2 ? std::string(5000, '\n') + "|exit 0\n" : k == 3 ? "&" + std::string(100000, 'f') + "@x\n" : [&] { std::string s; for (int q = 0; q < 3000; q++) s += "&f" + std::to_string(q) + "@r.example\n"; return s; }();
+      // (generator of its own, so the other plans of this surface keep their draws) three plans in ten: short structured files whose lines
+      // begin with blanks, tabs or nothing before a type character - the two passes over the file (count the forwards, then fill the
+      // array) must agree on every line, whatever they take it for
+      { Rng r3(mix64(p.seed, 0x20c8)); if (r3.chance(0.3)) { dq.clear(); int nl = (int)r3.range(1, 40); for (int q = 0; q < nl; q++) { dq += r3.pick(std::vector<std::string>{"", "", " ", "\t", "  ", " \t ", "\r", "\x0b"}); dq += r3.pick(std::vector<std::string>{"#c", "./Mailbox", "./Maildir/", "/abs/Mailbox", "|exit 0", "&f@r.example", "f@r.example", "+x", "", " ", "&", "#", "|", "."}); dq += "\n"; } if (r3.chance(0.2)) dq.pop_back(); k = 5; } }
       files.push(Json::obj().set("name", ".qmail").set("content", dq).set("mode", 0600)); files.push(Json::obj().set("name", ".qmail-default").set("content", "./Mailbox\n").set("mode", 0600));
       home.set("files", files); Json md = Json::arr(); md.push("Maildir"); home.set("maildirs", md).set("mbox", "Mailbox").set("mbox_initial", ""); p.knobs.set("home", home);
       Json d = Json::obj(); d.set("op", "deliver").set("id", "d1").set("ext", r.chance(0.5) ? std::string() : std::string((size_t)r.pick(std::vector<int>{1, 7, 70, 5000}), 'e') + "-default").set("dash", r.chance(0.5) ? "" : "-").set("local", std::string((size_t)r.pick(std::vector<int>{1, 100, 10000}), 'l')).set("host", std::string((size_t)r.pick(std::vector<int>{1, 100, 10000}), 'h') + ".x.y.z").set("sender", r.chance(0.5) ? rnd_bytes(r, 200) : "s@x").set("msg", r.chance(0.5) ? rnd_bytes(r, 5000) : std::string(100000, 'm')).set("wait", true);
